@@ -136,6 +136,8 @@ def run_shard(spec):
                 addr = rng.randrange(b, e)
             else:
                 addr = rng.choice([0, 0xFFFFFFFF, 0xFFFFFFF8, b + 0x100, rng.getrandbits(32), rng.getrandbits(40), 0xFFFFFFFC, 0x100000000])
+            if rng.random() < 0.06 and e > b:
+                addr = rng.randrange(b, e) + (rng.randrange(1, 256) << 32)     # aliases a window modulo 2^32 (or lies in a 'high' one)
             addr &= (1 << 40) - 1
             is_write = rng.random() < 0.55
             tag += 1
